@@ -673,8 +673,9 @@ func (vc *VC) callFunc(fr *Frame, st *State, x *ssa.Call, callee *ssa.Function, 
 		fr.cutArgs = args
 		vc.cutPoints(fr, st, keys, "")
 		r := vc.callFunc2(fr, st, x, callee, args, binds)
+		fr.cutResult = r
 		vc.cutPoints(fr, st, keys, "after ")
-		fr.cutArgs = nil
+		fr.cutArgs, fr.cutResult = nil, nil
 		return r
 	}
 	return vc.callFunc2(fr, st, x, callee, args, binds)
@@ -691,6 +692,7 @@ func (vc *VC) cutPoints(fr *Frame, st *State, keys []string, prefix string) {
 			for i, a := range fr.cutArgs {
 				env.vars[fmt.Sprintf("$arg%d", i)] = a
 			}
+			vc.bindCutResult(fr, env)
 			v := env.eval(gd.E)
 			if env.err != nil || v == nil {
 				vc.oblige(st, "spec-error", "ghost/"+gd.Name, "false", gd.Pos, fmt.Sprint(env.err))
@@ -710,6 +712,7 @@ func (vc *VC) cutPoints(fr *Frame, st *State, keys []string, prefix string) {
 			for i, a := range fr.cutArgs {
 				env.vars[fmt.Sprintf("$arg%d", i)] = a
 			}
+			vc.bindCutResult(fr, env)
 			g, err := env.evalBool(c.E)
 			if err != nil {
 				vc.oblige(st, "spec-error", "assert/"+c.Name, "false", c.Pos, err.Error())
@@ -1243,4 +1246,22 @@ func isFrameClause(name string) bool {
 		}
 	}
 	return false
+}
+
+// bindCutResult makes the value returned by the call of an `after` cut point
+// available as $result ($result0, $result1, … for several results).
+func (vc *VC) bindCutResult(fr *Frame, env *Env) {
+	r := fr.cutResult
+	if r == nil {
+		return
+	}
+	if len(r.Tup) > 0 {
+		for i, v := range r.Tup {
+			env.vars[fmt.Sprintf("$result%d", i)] = v
+		}
+		return
+	}
+	if r.S != "" || r.P != nil {
+		env.vars["$result"] = r
+	}
 }
